@@ -7,13 +7,16 @@ sys.path.insert(0, os.path.join(HERE, "lib"))
 sys.path.insert(0, HERE)
 
 
+REGISTERED = json.load(open(os.path.join(HERE, "lib", "registered.json")))
+
+
 def load_checks():
     import importlib, glob
     out = {}
     for f in sorted(glob.glob(os.path.join(HERE, "checks", "c[0-9][0-9].py"))):
         name = os.path.basename(f)[:-3]
         mod = importlib.import_module("checks." + name)
-        if not hasattr(mod, "MANIFEST"):
+        if not hasattr(mod, "MANIFEST") or name.upper() not in REGISTERED:
             continue
         m = mod.MANIFEST
         out[name.upper()] = (mod.LEVEL, m["technique"], m["text"], m["note"], m["ref"])
